@@ -39,6 +39,8 @@ def events_for(env, rng, thorough):
             for e1, e2 in ((1, 1), (1, -1), (2, -1), (-1, -2)):
                 requests.append(("map %s%d %s%d [%s,%s]" % (u1, e1, u2, e2, c1, c2),
                                  lambda c1=c1, u1=u1, c2=c2, u2=u2, e1=e1, e2=e2: ObtainQuantity(OrderedDict([(c1, [u1, e1]), (c2, [u2, e2])]))))
+                requests.append(("map+caption %s%d %s%d [%s,%s]" % (u1, e1, u2, e2, c1, c2),
+                                 lambda c1=c1, u1=u1, c2=c2, u2=u2, e1=e1, e2=e2: ObtainQuantity(OrderedDict([(c1, [u1, e1]), (c2, [u2, e2])]), None, "flux")))
                 requests.append(("lists %s%d %s%d [%s,%s]" % (u1, e1, u2, e2, c1, c2),
                                  lambda c1=c1, u1=u1, c2=c2, u2=u2, e1=e1, e2=e2: ObtainQuantity([(u1, e1), (u2, e2)], [c1, c2])))
     requests.append(("empty", lambda: ObtainQuantity(OrderedDict())))
@@ -65,6 +67,14 @@ def events_for(env, rng, thorough):
             sa, sb = Scalar(a, 1.0), Scalar(b, 1.0)
             ev.append({"op": "DiffReq", "call": "Scalars on map %s%d.%s%d vs the other order" % (u1, e1, u2, e2), "eq": bool(sa == sb), "ne": bool(sa != sb),
                        "hash1": 0, "hash2": 0, "desc1": repr(qalg.q_snapshot(a)[:2]), "desc2": repr(qalg.q_snapshot(b)[:2])})
+    # a derived request with a caption against the same composing map without it (in both request orders)
+    for (c1, u1), (c2, u2) in ((("length", "m"), ("time", "min")), (("mass", "kg"), ("depth", "km"))):
+        for first in ("plain", "caption"):
+            m_ = lambda: OrderedDict([(c1, [u1, 2]), (c2, [u2, -1 if first == "plain" else -3])])
+            qs = [ObtainQuantity(m_()), ObtainQuantity(m_(), None, "flux")] if first == "plain" else [ObtainQuantity(m_(), None, "flux"), ObtainQuantity(m_())]
+            a, b = qs
+            ev.append({"op": "DiffReq", "call": "derived %s2/%s with and without caption (%s first)" % (u1, u2, first), "eq": bool(a == b), "ne": bool(a != b),
+                       "hash1": hash(a), "hash2": hash(b), "desc1": repr(qalg.q_snapshot(a)[:2]), "desc2": repr(qalg.q_snapshot(b)[:2])})
     # equal / different resolutions
     for i in range(0, len(made) - 1):
         (n1, a), (n2, b) = made[i], made[(i * 7 + 3) % len(made)]
